@@ -632,6 +632,9 @@ def compare(case, obs, mouts):
         if case["kind"] == "e2e":
             if "skip" in obs:
                 return None
+            if cmp_error_possible(vj.dec(obs["arg_seen"]), vj.dec(obs["ref_seen"])):
+                # since /repo 165bbcf the type error fails the matching flow instead of escaping: "no hit" in that order
+                return None
             if ("exc" in obs or m["res"] == "err") and has_cmp(vj.dec(obs["ref_seen"])):
                 # a comparison type error met while scanning a set depends on the iteration order of the
                 # interpreter's own copy of the event, which the harness cannot observe end-to-end
@@ -722,6 +725,17 @@ def has_cmp(r):
     return False
 
 
+def cmp_error_possible(a, r):
+    """Could some scan order make a ComparisonExpression meet a value of another type (=> ColangValueError)?"""
+    if hasattr(r, "_verif_op"):
+        return not isinstance(a, type(r.value))
+    if isinstance(r, dict) and isinstance(a, dict):
+        return any(k in a and cmp_error_possible(a[k], v) for k, v in r.items())
+    if isinstance(r, (list, set, frozenset)) and isinstance(a, (list, set, frozenset)):
+        return any(cmp_error_possible(x, y) for x in a for y in r)
+    return False
+
+
 def has_reserved(r):
     if isinstance(r, dict):
         return any(k in RESERVED for k in r) or any(has_reserved(v) for v in r.values())
@@ -775,6 +789,8 @@ def oracle(case, obs):
         if case["kind"] == "e2e":
             if "exc" in obs:
                 return None if has_cmp(r) else f"run_to_completion raised {obs['exc']} on a well-typed match"
+            if cmp_error_possible(a, r):
+                return None  # order-dependent comparison type error: the documented outcome is an error
             got = obs["hit"]
         else:
             if "exc" in obs:
